@@ -570,3 +570,19 @@ def add_zoo(w, parts=ZOO_ALL):
             _reads_for(w, g, modes=("full", "full", "trunc5", "trunc3"))
             placed.add("shared_chain")
     return placed
+
+
+def rename_chroms(w, mapping):
+    """Renames chromosomes everywhere (sequence table, genes, transcripts, reads)."""
+    w.chroms = {mapping.get(k, k): v for k, v in w.chroms.items()}
+    w.chrom_order = [mapping.get(k, k) for k in w.chrom_order]
+    for g in w.genes:
+        g.chrom = mapping.get(g.chrom, g.chrom)
+        for t in g.transcripts + g.hidden:
+            t.chrom = mapping.get(t.chrom, t.chrom)
+    for r in w.reads:
+        if r.chrom is not None:
+            r.chrom = mapping.get(r.chrom, r.chrom)
+            if isinstance(r.truth, dict) and "chr" in r.truth:
+                r.truth["chr"] = mapping.get(r.truth["chr"], r.truth["chr"])
+    return w
